@@ -959,6 +959,27 @@ pub fn oracle_c07(scn: &E1Scn, d: &Digest, out: &RunOut, stats: &mut Stats) -> V
             format!("ticket of op {id} ({}) sent at t={} was still unresolved 1 h (virtual) later for waiter {w}; nothing else in the system could make progress", st.op.name(), d.send.get(id).map(|s| s.0).unwrap_or(0)),
         ));
     }
+    // (a'') a job whose handles have all been dropped ends (after draining its queue) - whoever still holds tickets
+    let endless_grace = all_ops(scn).iter().any(|o| o.3.op.graceful().map(|g| g.1 >= HOUR_MS).unwrap_or(false));
+    let stalled_forever = d.hung.iter().any(|h| scn.op(h.0).op != Op::ToWait);
+    if scn.drop_handles && d.task_end.is_none() && !endless_grace && !stalled_forever && d.run_end > 0 {
+        vs.push(Violation::new("job-survives-its-last-handle", "", "every Job handle was dropped, yet the job task was still running two (virtual) hours later".into()));
+    }
+    // ... and promptly: once the last sender has let go of its handle, what is left is the queue - every grace period
+    // in it, every time-consuming control, every slow death - and nothing else (tickets are not handles)
+    if let (true, Some(te), Some(hd)) = (scn.drop_handles && !endless_grace, d.task_end, d.handles_dropped) {
+        let graces: u64 = all_ops(scn).iter().filter_map(|o| o.3.op.graceful().map(|g| g.1)).fold(0u64, |a, g| a.saturating_add(g));
+        let gaps: u64 = scn.senders.iter().map(|st| st.iter().map(|s| s.gap).sum::<u64>()).max().unwrap_or(0);
+        let bound = hd.0.saturating_add(busy_bound(scn)).saturating_add(graces).saturating_add(gaps).saturating_add(10);
+        stats.hit("probe:job-ended-after-last-handle-dropped");
+        if te.0 > bound && !te.2 {
+            vs.push(Violation::new(
+                "job-outlives-its-last-handle",
+                "",
+                format!("the last Job handle was dropped by t={} but the job task ended only at t={} (queue: at most {} ms of grace periods and {} ms of other work)", hd.0, te.0, graces, busy_bound(scn)),
+            ));
+        }
+    }
     // (a') the job task never panics (no scenario contains a panicking closure or hook)
     if d.task_end.map(|t| t.2).unwrap_or(false) {
         vs.push(Violation::new("job-task-panicked", "", format!("the job task panicked at t={}", d.task_end.map(|t| t.0).unwrap_or(0))));
@@ -1181,6 +1202,7 @@ impl Check for C07 {
     fn required_probes(&self, _tier: Tier) -> Vec<&'static str> {
         vec![
             "probe:multi-waiter-ticket",
+            "probe:job-ended-after-last-handle-dropped",
             "probe:child-exit-inside-grace",
             "probe:graceful-ticket-judged",
             "fault:spawn-failure",
